@@ -143,6 +143,7 @@ def r1_derivations(ctx):
 
 
 def r2_unit_independence(ctx):
+    _cells_are_converted(ctx)
     def unitless_reads(tree):
         out = []
         for n in ast.walk(tree):
@@ -174,6 +175,50 @@ def r2_unit_independence(ctx):
         pass
 
 
+def _cells_are_converted(ctx):
+    """A table cell that holds a quantity is brought into its column unit by a conversion (to(unit) / value(unit)).
+    `Quantity(q.value(), unit)` only relabels the bare magnitude with the column unit."""
+    n = 0
+    for rel, q in ((EL, "Element._data"), (CO, "Composite._data")):
+        if not ctx.repo.has_func(rel, q):
+            continue
+        fn = ctx.fn(rel, q)
+        for c in [x for x in ast.walk(fn) if isinstance(x, ast.Call) and dotted_name(x.func) == "Quantity" and len(x.args) == 2]:
+            a0 = c.args[0]
+            if isinstance(a0, ast.Call) and isinstance(a0.func, ast.Attribute) and a0.func.attr == "value" and not a0.args and not a0.keywords:
+                n += 1
+                ctx.violated(rel, q, "a quantity cell is converted into the column unit, not relabelled", detail=norm(c)[:90],
+                             expected=f"{norm(a0.func.value)}.to(<column unit>)")
+        convs = [x for x in ast.walk(fn) if isinstance(x, ast.Call) and isinstance(x.func, ast.Attribute) and x.func.attr in ("to", "value") and x.args]
+        ctx.form(bool(convs), rel, q, "quantity cells are converted with to(unit) / value(unit)")
+    ctx.holds("-", "-", "scan of the table builders for relabelled magnitudes completed")
+
+
+def _always_normalised(ctx):
+    """The densities and the mass are derived in Matter._norm, which looks at whichever density was given.  The
+    constructors call it unconditionally; a guard on one of the two densities skips the derivation for the other one."""
+    from ..flowexpr import paths
+    for rel, q in ((EL, "Element.__init__"), (CO, "Composite._norm")):
+        fn = ctx.fn(rel, q)
+        what = "the derivation of densities and mass (Matter._norm) runs on every path"
+        skipped = []
+        found = False
+        for pth in paths(fn):
+            if pth.status == "raise":
+                continue
+            has = any(e.resolved is not None and isinstance(e.resolved, ast.AST) and "Matter._norm(self)" in norm(e.resolved) for e in pth.events)
+            found = found or has
+            if not has:
+                skipped.append([f"{norm(t.resolved)[:40]} is {t.extra}" for t in pth.tests()
+                                if any(k in norm(t.resolved) for k in ("density", "volume"))])
+        if not found:
+            ctx.form(False, rel, q, what, detail="no call of Matter._norm(self)")
+        elif any(sk for sk in skipped):
+            ctx.violated(rel, q, what, detail={"skipped under": [sk for sk in skipped if sk][:2]}, expected="Matter._norm(self) unguarded: it tests both densities itself")
+        else:
+            ctx.form(not skipped, rel, q, what, detail=skipped[:2])
+
+
 # kinds: Number, Mass, InvMass
 def _kind(term):
     """Kind of a summand over p (Number) and m (Mass)."""
@@ -203,6 +248,7 @@ def r3_kinds(ctx):
 
 
 def r4_renormalised(ctx):
+    _always_normalised(ctx)
     C10.r3_accumulation(ctx)
 
 
